@@ -141,7 +141,28 @@ func rewrite(path, rel string, lookForListen bool) (int, int, error) {
 				continue // the body of a switch/select is a block of clauses, not of statements
 			}
 			pos := fset.Position(s.Pos())
-			sp = append(sp, splice{off: pos.Offset, text: fmt.Sprintf("simyield.Y(%q); ", fmt.Sprintf("%s:%d", rel, pos.Line))})
+			site := fmt.Sprintf("%s:%d", rel, pos.Line)
+			// the statement (or the header of a compound statement) that runs the Groth16 prover: a
+			// task parked here is "about to compute a proof" (used by the availability oracle of C20)
+			hdrEnd := s.End()
+			switch c := s.(type) {
+			case *ast.IfStmt:
+				hdrEnd = c.Body.Pos()
+			case *ast.ForStmt:
+				hdrEnd = c.Body.Pos()
+			case *ast.RangeStmt:
+				hdrEnd = c.Body.Pos()
+			case *ast.SwitchStmt:
+				hdrEnd = c.Body.Pos()
+			case *ast.TypeSwitchStmt:
+				hdrEnd = c.Body.Pos()
+			case *ast.SelectStmt, *ast.BlockStmt, *ast.LabeledStmt:
+				hdrEnd = s.Pos()
+			}
+			if strings.Contains(string(src[fset.Position(s.Pos()).Offset:fset.Position(hdrEnd).Offset]), "groth16.Prove(") {
+				site += "#prove"
+			}
+			sp = append(sp, splice{off: pos.Offset, text: fmt.Sprintf("simyield.Y(%q); ", site)})
 			yields++
 		}
 	}
